@@ -53,7 +53,7 @@ func (t *toyHash) Sum(b []byte) []byte {
 	}
 	out := make([]byte, t.n)
 	for j := range out {
-		out[j] = byte(((a + uint32(j)*2654435761) * 2246822507) >> 24)
+		out[j] = byte(((a + uint32(j)*2654435761) * 1029) >> 16)
 	}
 	return append(b, out...)
 }
@@ -67,21 +67,16 @@ func pattern(seed uint64, n int) []byte {
 	b := make([]byte, n)
 	for i := range b {
 		u := uint64(i)
-		b[i] = byte((seed + u*7 + u/251) % 256)
+		b[i] = byte(seed + u*7 + u>>8)
 	}
 	return b
 }
 func digest(b []byte) uint64 {
-	const m = 2305843009213693951
-	a := new(big.Int)
-	mm := new(big.Int).SetUint64(m)
-	k := big.NewInt(1000003)
+	a := uint64(0)
 	for _, x := range b {
-		a.Mul(a, k)
-		a.Add(a, big.NewInt(int64(x)+1))
-		a.Mod(a, mm)
+		a = (a*33 + uint64(x) + 1) & (1<<48 - 1)
 	}
-	return a.Uint64()
+	return a
 }
 
 // ---------------------------------------------------------------- independent reference (oracle side)
@@ -144,7 +139,7 @@ type obs struct {
 func robsBytes(o obs) string {
 	switch o.Class {
 	case "ok":
-		return hx.CoqApp("ROk", hx.CoqBytes(o.Data))
+		return hx.CoqApp("ROk", coqHex(o.Data))
 	case "err":
 		return "RErr"
 	case "panic":
@@ -164,12 +159,16 @@ func robsN(o obs) string {
 	return "RHang"
 }
 
+// watchdog for one call: short for the in-memory encryption ops (one corpus case really hangs),
+// long for the store calls (two Keccak passes over 256 KiB under CPU contention)
+var callTimeout = 20 * time.Second
+
 // call runs f (returning bytes, error) under panic guard and watchdog
 func call(f func() ([]byte, error)) obs {
 	var out []byte
 	var err error
 	var panicked bool
-	done := hx.WithTimeout(8*time.Second, func() {
+	done := hx.WithTimeout(callTimeout, func() {
 		panicked, _ = hx.Guard(func() { out, err = f() })
 	})
 	switch {
@@ -211,6 +210,9 @@ type jcase struct {
 
 var run *hx.Run
 
+// coqHex renders a byte string as (hex ".."), decoded inside Coq by Corr.hex
+func coqHex(b []byte) string { return "(hex \"" + hx.Hex(b) + "\")" }
+
 func unhex(s string) []byte { b, _ := hex.DecodeString(s); return b }
 
 // ---------------------------------------------------------------- CEnc
@@ -218,6 +220,8 @@ func unhex(s string) []byte { b, _ := hex.DecodeString(s); return b }
 func doEnc(jc jcase) {
 	key := unhex(jc.Key)
 	hf := toyFn(jc.HLen)
+	callTimeout = 2 * time.Second
+	defer func() { callTimeout = 20 * time.Second }()
 	e := encryption.New(key, int(jc.Padding), jc.InitCtr, hf)
 	var terms []string
 	inDomain := len(key) > 0 && len(key) <= jc.HLen
@@ -231,7 +235,7 @@ func doEnc(jc jcase) {
 			continue
 		case "enc":
 			o := call(func() ([]byte, error) { return e.Encrypt(data) })
-			terms = append(terms, hx.CoqApp("OEnc", hx.CoqBytes(data), robsBytes(o)))
+			terms = append(terms, hx.CoqApp("OEnc", coqHex(data), robsBytes(o)))
 			run.Hist("enc." + o.Class)
 			// oracle: the statement on the implementation (toy hash is a legitimate hashFunc)
 			if inDomain {
@@ -257,7 +261,7 @@ func doEnc(jc jcase) {
 			}
 		case "dec":
 			o := call(func() ([]byte, error) { return e.Decrypt(data) })
-			terms = append(terms, hx.CoqApp("ODec", hx.CoqBytes(data), robsBytes(o)))
+			terms = append(terms, hx.CoqApp("ODec", coqHex(data), robsBytes(o)))
 			run.Hist("dec." + o.Class)
 			if o.Class == "panic" || o.Class == "hang" {
 				goto done
@@ -268,12 +272,12 @@ func doEnc(jc jcase) {
 				err := e.(*encryption.Encryption).Transcrypt(int(op.I), data, out)
 				return out, err
 			})
-			terms = append(terms, hx.CoqApp("OTrans", hx.CoqZ(op.I), hx.CoqBytes(data), hx.CoqNat(op.OutLen), robsBytes(o)))
+			terms = append(terms, hx.CoqApp("OTrans", hx.CoqZ(op.I), coqHex(data), hx.CoqNat(op.OutLen), robsBytes(o)))
 			run.Hist("trans." + o.Class)
 		}
 	}
 done:
-	coq := hx.CoqApp("CEnc", hx.CoqNat(jc.HLen), hx.CoqBytes(key), hx.CoqZ(jc.Padding), hx.CoqN(uint64(jc.InitCtr)), hx.CoqList(terms, "opobs"))
+	coq := hx.CoqApp("CEnc", hx.CoqNat(jc.HLen), coqHex(key), hx.CoqZ(jc.Padding), hx.CoqN(uint64(jc.InitCtr)), hx.CoqList(terms, "opobs"))
 	run.AddCase(coq, jc, fmt.Sprintf("enc|%d|%s|%d|%d|%v", jc.HLen, jc.Key, jc.Padding, jc.InitCtr, jc.Ops), inDomain && nontrivial)
 }
 
@@ -340,7 +344,7 @@ func doEncPat(jc jcase) {
 	case "hang":
 		ob = "RHang"
 	}
-	coq := hx.CoqApp("CEncPat", hx.CoqNat(jc.HLen), hx.CoqBytes(key), hx.CoqZ(jc.Padding), hx.CoqN(uint64(jc.InitCtr)), hx.CoqN(jc.Seed), hx.CoqN(uint64(jc.Len)), ob)
+	coq := hx.CoqApp("CEncPat", hx.CoqNat(jc.HLen), coqHex(key), hx.CoqZ(jc.Padding), hx.CoqN(uint64(jc.InitCtr)), hx.CoqN(jc.Seed), hx.CoqN(uint64(jc.Len)), ob)
 	run.AddCase(coq, jc, fmt.Sprintf("encpat|%d|%s|%d|%d|%d|%d", jc.HLen, jc.Key, jc.Padding, jc.InitCtr, jc.Seed, jc.Len), true)
 	run.Hist("encpat." + o.Class)
 	roundTrip(toyFn(jc.HLen), "toy", key, int(jc.Padding), jc.InitCtr, data, jc)
@@ -761,7 +765,11 @@ func doUpload(jc jcase) {
 
 // ---------------------------------------------------------------- dispatch + generators
 
+var kindTime = map[string]float64{}
+
 func dispatch(jc jcase) {
+	t0 := time.Now()
+	defer func() { kindTime[jc.Kind] += time.Since(t0).Seconds() }()
 	switch jc.Kind {
 	case "enc":
 		doEnc(jc)
@@ -938,9 +946,11 @@ func main() {
 		}
 		dispatch(jcase{Kind: "get", RefLen: rl, Found: false, DataLen: 8 + chunkSize, Span: 5})
 	}
-	dispatch(jcase{Kind: "encpat", HLen: 32, Key: k32, Padding: chunkSize, InitCtr: 0, Seed: 3, Len: chunkSize})
-	dispatch(jcase{Kind: "encpat", HLen: 32, Key: k32, Padding: chunkSize, InitCtr: 0, Seed: 4, Len: 3*64 + 0})
-	dispatch(jcase{Kind: "encpat", HLen: 32, Key: k32, Padding: chunkSize, InitCtr: 0, Seed: 4, Len: chunkSize + 1})
+	dispatch(jcase{Kind: "encpat", HLen: 32, Key: k32, Padding: chunkSize, InitCtr: 0, Seed: 4, Len: 3 * 64})
+	dispatch(jcase{Kind: "encpat", HLen: 32, Key: k32, Padding: chunkSize, InitCtr: 4096, Seed: 5, Len: 30001})
+	if run.Thorough() { // the full-size evaluation inside Coq costs ~10 s
+		dispatch(jcase{Kind: "encpat", HLen: 32, Key: k32, Padding: chunkSize, InitCtr: 0, Seed: 3, Len: chunkSize})
+	}
 	// trie: empty, single leaf, full at branching 2, beyond full
 	for _, b := range []int{2, 3, 4, 5} {
 		c := uint64(64 * b)
@@ -954,7 +964,7 @@ func main() {
 	dispatch(jcase{Kind: "trie", B: 2, RefLen: 64, Runs: [][2]uint64{{128, 127}, {5, 1}}})
 
 	// ---- generated
-	for i := 0; i < run.N(500, 6000); i++ {
+	for i := 0; i < run.N(400, 6000); i++ {
 		dispatch(genEnc(r))
 	}
 	for i := 0; i < run.N(60, 1500); i++ {
@@ -966,6 +976,9 @@ func main() {
 	}
 	for i := 0; i < run.N(1, 4); i++ {
 		n := r.Pick([]int{chunkSize, chunkSize - 1, r.Intn(chunkSize)})
+		if !run.Thorough() {
+			n = r.Intn(40000) // the full-size evaluation inside Coq costs ~10 s; one corpus case does it in the quick tier
+		}
 		dispatch(jcase{Kind: "encpat", HLen: 32, Key: hx.Hex(r.Bytes(32)), Padding: chunkSize, InitCtr: uint32(r.Pick([]int{0, 4096, 0xFFFFF000})), Seed: uint64(r.Intn(256)), Len: n})
 	}
 	// keccak round trips (oracle only)
@@ -1053,5 +1066,6 @@ func main() {
 	for _, s := range sizes {
 		dispatch(jcase{Kind: "upload", Size: s, Seed: uint64(r.Intn(256))})
 	}
+	run.SetExtra("seconds_per_kind", kindTime)
 	run.Finish()
 }
